@@ -104,6 +104,7 @@ def build(reg):
     build_errback(reg, common)
     build_guards(reg, common)
     build_handshake(reg, common)
+    build_join(reg, common)
     reg.contract(SESS + ".disconnect", params={"self": "obj:Session"}, modifies=["ghost.n_close"],
                  ensures=["ghost.n_close == old(ghost.n_close) + (1 if self._transport is not None else 0)"], **common)
 
@@ -241,6 +242,28 @@ def build_handshake(reg, common):
         ensures=[UNEST, "ghost.n_sent == old(ghost.n_sent) + 1 and isinstance(ghost.last_sent, Abort)",
                  "ghost.n_onleave == old(ghost.n_onleave) + 1", "ghost.n_fire_join == old(ghost.n_fire_join)"],
         raises=SEND, raises_ensures={"*": [UNEST, "ghost.n_onleave == old(ghost.n_onleave)"]}, **common)
+
+
+def build_join(reg, common):
+    """join(): exactly one HELLO carrying the given realm and authentication parameters and this session's roles -- only
+    while no session is established and a transport is attached; the closing-handshake flag starts clear"""
+    reg.shapes["Session"].fields.update({"_session_roles": "any"})
+    reg.contract(
+        SESS + ".join",
+        params={"self": "obj:Session", "realm": "opt:str", "authmethods": "any", "authid": "opt:str", "authrole": "opt:str",
+                "authextra": "any", "resumable": "opt:bool", "resume_session": "opt:int", "resume_token": "opt:str"},
+        modifies=["self._realm", "self._goodbye_sent", "ghost.n_sent", "ghost.last_sent"],
+        ensures=["old(self._session_id) is None or old(self._session_id) == 0", "old(self._transport) is not None",
+                 "ghost.n_sent == old(ghost.n_sent) + 1 and isinstance(ghost.last_sent, Hello)",
+                 "ghost.last_sent.realm is realm and ghost.last_sent.authmethods is authmethods and "
+                 "ghost.last_sent.authid is authid and ghost.last_sent.authrole is authrole and "
+                 "ghost.last_sent.authextra is authextra and ghost.last_sent.roles is self._session_roles",
+                 "ghost.last_sent.resumable is resumable and ghost.last_sent.resume_session is resume_session and "
+                 "ghost.last_sent.resume_token is resume_token",
+                 "not self._goodbye_sent and self._session_id is old(self._session_id)"],
+        raises={"Exception": "(self._session_id is not None and self._session_id != 0) or self._transport is None",
+                "SerializationError": "True", "PayloadExceededError": "True", "TransportLost": "True"},
+        raises_ensures={"Exception": ["ghost.n_sent == old(ghost.n_sent)"]}, **common)
 
 
 def W_challenge_model(msg_model):
